@@ -326,6 +326,47 @@ func main() {
 			fmt.Fprintf(&b, "def «%s» : String := %s\n", r.name, r.val)
 		}
 	}
+	// aliases by short name: a constant keeps its alias when it moves between a function body and
+	// package level (or between functions); an alias exists when all declarations of that short name in
+	// the package agree on kind and value
+	{
+		type key struct{ pkg, short string }
+		groups := map[key][]rec{}
+		var order []key
+		for _, r := range recs {
+			i := strings.Index(r.name, ".")
+			j := strings.LastIndex(r.name, ".")
+			k := key{r.name[:i], strings.SplitN(r.name[j+1:], "#", 2)[0]}
+			if _, ok := groups[k]; !ok {
+				order = append(order, k)
+			}
+			groups[k] = append(groups[k], r)
+		}
+		b.WriteString("\n/-! ## the same constants by short name (`«pkg:name»`): independent of the scope a constant is declared in;\n")
+		b.WriteString("     present when every declaration of that name in the package has the same kind and value -/\n\n")
+		for _, k := range order {
+			g := groups[k]
+			same := true
+			for _, r := range g[1:] {
+				if r.kind != g[0].kind || r.val != g[0].val {
+					same = false
+				}
+			}
+			if !same {
+				continue
+			}
+			r := g[0]
+			switch r.kind {
+			case "int":
+				fmt.Fprintf(&b, "def «%s:%s» : Int := %s\n", k.pkg, k.short, r.val)
+			case "bool":
+				fmt.Fprintf(&b, "def «%s:%s» : Bool := %s\n", k.pkg, k.short, r.val)
+			default:
+				fmt.Fprintf(&b, "def «%s:%s» : String := %s\n", k.pkg, k.short, r.val)
+				fmt.Fprintf(&b, "def «%s:%s.bytes» : List UInt8 := %s\n", k.pkg, k.short, bytesLit(r.raw))
+			}
+		}
+	}
 	b.WriteString("\n/-! string constants once more, as UTF-8 bytes (what the byte-level models compare with) -/\n\n")
 	for _, r := range recs {
 		if r.kind == "str" {
